@@ -31,12 +31,15 @@ use serde::{Deserialize, Serialize};
 
 /// Pool of exchanges used by generated collections (sorted order of `ExchangeId` is the order of
 /// the enum, deliberately not the order of this pool).
+/// `Mock` is declared first in the `ExchangeId` enum but sorts between "kraken" and "okx" by
+/// name: with it among the first pool entries, index order (enum order) and alphabetical order of
+/// exchange / instrument names disagree in most multi-exchange collections.
 pub const EXCHANGES: [ExchangeId; 5] = [
-    ExchangeId::Okx,
     ExchangeId::BinanceSpot,
+    ExchangeId::Mock,
+    ExchangeId::Okx,
     ExchangeId::Kraken,
     ExchangeId::Coinbase,
-    ExchangeId::Mock,
 ];
 
 /// Pool of internal asset names.
